@@ -35,6 +35,9 @@ func ForSharedCases() []*ForSharedCase {
 			return &jsonschema.Schema{Types: withCap("string", "number", "boolean"), Required: withCap("a"), Enum: append(make([]any, 0, 4), "x", 1.0)}
 		}},
 		{"types-with-null", func() *jsonschema.Schema { return &jsonschema.Schema{Types: withCap("null", "string")} }},
+		{"empty", func() *jsonschema.Schema { return &jsonschema.Schema{} }},
+		{"array-of-empty", func() *jsonschema.Schema { return &jsonschema.Schema{Type: "array", Items: &jsonschema.Schema{}} }},
+		{"not-empty", func() *jsonschema.Schema { return &jsonschema.Schema{Not: &jsonschema.Schema{}} }},
 		{"object-props", func() *jsonschema.Schema {
 			return &jsonschema.Schema{Type: "object", Properties: map[string]*jsonschema.Schema{"k": {Types: withCap("integer", "string")}}, PropertyOrder: withCap("k"), Required: withCap("k")}
 		}},
